@@ -108,6 +108,8 @@ def design(thorough):
     neg = [("AggregatorMC", "Aggregator_neg_nodrain.cfg"), ("AggregatorMC", "Aggregator_neg_noflush.cfg"),
            ("AggregatorMC", "Aggregator_neg_nocount.cfg"), ("AggregatorMC", "Aggregator_neg_late.cfg"),
            ("ShutdownMC", "Shutdown_neg_nowait.cfg"), ("ShutdownMC", "Shutdown_neg_reach.cfg"),
+           # a first signal while the tasks of a FAILED run are awaited ends the process (seed C06-6)
+           ("ShutdownMC", "Shutdown_neg_errsig.cfg"),
            ("PoolAggMC", "PoolAgg_neg_early.cfg"),
            # out of ammo during the start-up calls runCancel() instead of instanceStartCancel() (seed C06-8)
            ("PoolAggMC", "PoolAgg_neg_ooa.cfg"), ("PoolAggMC", "PoolAgg_neg_ooa_start.cfg"),
@@ -237,6 +239,16 @@ def describe_sig(evs, ev, inv, bad):
     st = next((e for e in evs if e["ev"] == "Start"), {})
     sg = next((e for e in evs if e["ev"] == "Signal"), {})
     ex = next((e for e in evs if e["ev"] == "Exit"), {})
+    if st.get("fail"):
+        return ("signal errorpath sig=%s kind=%s inv=%s bad=%s" % (st.get("sig"), st.get("kind"), inv, bad),
+                "pandora (%s; a second pool fails by itself %s ms into the run; slow pipe sink): %s; %s reports had returned "
+                "before the failure, %s begun at exit; result has %s lines (+%s counted drops), last line complete=%s, "
+                "aggregators returned before exit=%s, log says 'Another signal received'=%s after %s signal(s), exit status %s: %s" % (
+                    st.get("kind"), st.get("after_ms"),
+                    "no signal" if st.get("sig") == "none" else "ONE SIG%s sent when 'Awaiting started tasks' was logged" % st.get("sig"),
+                    ex.get("failed_returned_before"), ex.get("entered"), ex.get("lines"), ex.get("dropped"),
+                    ex.get("last_complete"), ex.get("agg_returned"), ex.get("another_signal"), ex.get("signals"),
+                    ex.get("status"), bad))
     return ("signal sig=%s kind=%s pipe=%s inv=%s bad=%s" % (st.get("sig"), st.get("kind"), st.get("pipe"), inv, bad),
             "pandora (%s, %s rps, %s instances in %s pool(s), %s sink, GOMAXPROCS=%s) stopped with SIG%s %s ms into the run: %s reports had returned "
             "before the signal, %s begun at exit; result has %s lines (+%s counted drops), last line complete=%s, "
@@ -307,7 +319,7 @@ def run(tier, v):
         sig_path = os.path.join(d, "aggsig.ndjson")
         nsig = 500 if thorough else 16
         fs = ex.submit(vlib.run_driver, vdrive, ["aggsig", "-vpandora", vpandora, "-out", sig_path, "-runs", str(nsig),
-                                                  "-par", "6" if thorough else "4"], 3000)
+                                                  "-par", "6" if thorough else "4", "-fail", "80" if thorough else "4"], 3000)
         states, trans, per = fd.result()
         fs.result()
     ncases, cstates, ctrans, csamples = format_cases(v, vdrive, d)
@@ -366,6 +378,8 @@ def run(tier, v):
                             "engine_runs_validated_by_TracePoolAgg": pa_validated,
                             "trace_spec_states": agg_states},
         "signal_runs": {"validated": sig_validated, "signalled": len(sigs), "self_ended": len(exits) - len(sigs),
+                        "error_path_runs": sum(1 for r in srows if r["ev"] == "Start" and r.get("fail")),
+                        "error_path_runs_signalled_while_awaiting_tasks": sum(1 for e in exits if starts[e["run"]].get("fail") and e.get("signals")),
                         "forced": sum(1 for e in exits if e.get("forced")),
                         "late_reports_lost": sum(e["entered"] - e["lines"] - e["dropped"] for e in exits),
                         "reports": sum(e["entered"] for e in exits), "trace_spec_states": sig_states},
